@@ -8,9 +8,11 @@ library's own simulation logging process (`transactron.testing.logging.make_logg
 next to the cycle driver with a capturing Python `logging` handler.
 
 Oracle, per cycle: reported records == {site : trigger ∧ module context active} (restricted to the
-level / namespace the process was created for), message == Python `str.format` of the sampled
-values, record cycle (the library's `_sim_cycle`) == the cycle.  `on_error` is called exactly once
-per ERROR-level record / failed assertion and never otherwise.  In "fatal" runs `on_error` raises,
+level / namespace the process was created for), the message ends with Python's `str.format` of the
+sampled values (what the library puts in front of it -- the `[file:line] ` prefix -- is not judged),
+record cycle (the library's `_sim_cycle`) == the cycle.  `on_error` is called in exactly the cycles
+with an ERROR-level record / failed assertion (how often within the cycle, and whether before or after
+the record reaches the handler, is only counted).  In "fatal" runs `on_error` raises,
 as the library's TestCase does ("Simulation finished due to an error"): the failure must leave the
 library's process in exactly the first cycle with an ERROR-level record, and in no run without one.
 """
@@ -62,6 +64,33 @@ def build_format(site, k):
         ref = {"auto": "", "pos": str(fi), "kw": f"f{fi}"}[site["style"]]
         out.append("{" + ref + (":" + spec if spec else "") + "}")
     return "".join(out)
+
+
+def ns_agrees(ns):
+    """The namespace filter selects the same loggers whether it is applied with re.search, re.match or
+    re.fullmatch (the statement does not say which one "within the namespace" means)."""
+    return all(len({re.search(ns, n) is not None, re.match(ns, n) is not None, re.fullmatch(ns, n) is not None}) == 1
+               for n in LOGGERS)
+
+
+def rec_matches(got, want):
+    """Same cycle, logger and level; the reported message ends with the expected formatted message."""
+    return got[:3] == want[:3] and got[3].endswith(want[3])
+
+
+def match_records(new, want):
+    """An injective assignment of the reported records to expected records (None if there is none)."""
+    def go(i, free):
+        if i == len(new):
+            return []
+        for j in free:
+            if rec_matches(new[i], want[j]):
+                rest = go(i + 1, [x for x in free if x != j])
+                if rest is not None:
+                    return [j] + rest
+        return None
+
+    return go(0, list(range(len(want))))
 
 
 def decode_str(v):
@@ -215,6 +244,8 @@ class Scen(CompScenario):
                 scen.failed_at = tl._sim_cycle
 
         self.extra_processes = [("process", guarded), ("process", tick)]
+        self.premise(ns_agrees(self.cfg["ns"]),
+                     f"namespace filter {self.cfg['ns']!r}: re.search / re.match / re.fullmatch select different loggers")
         self.included = [LEVELS[self.sites[k]["level"]] >= self.cfg["min_level"]
                          and re.search(self.cfg["ns"], LOGGERS[self.sites[k]["logger"]]) is not None for k in self.order]
 
@@ -288,17 +319,17 @@ class Scen(CompScenario):
         for cyc, n in calls:
             self.expect(cyc == cycle, "on-error-mismatch", f"on_error called with cycle stamp {cyc} in cycle {cycle}")
             last = self.captured[n - 1] if n > base else None
-            self.expect(last is not None and last[2] >= logging.ERROR, "on-error-mismatch",
-                        f"cycle {cycle}: on_error called after {last!r}, which is not an ERROR-level record",
-                        level=logging.getLevelName(last[2]) if last else None)
+            if last is None or last[2] < logging.ERROR:
+                self.hit("on_error_not_right_after_its_record")  # order relative to the handler: not stated
+        if len(calls) != len(want_err):
+            self.hit("on_error_calls_differ_from_error_record_count")  # judged per cycle, not per record
         if fatal and want_err:
             # the run ends here: at least the first ERROR-level record was reported, nothing unexpected was
             self.expect(self.failed_at == cycle, "failure-missing",
                         f"cycle {cycle}: ERROR-level record(s) {want_err!r} but the failure did not end the library's "
                         f"process (failed_at={self.failed_at}, on_error calls {calls})")
-            self.expect(len(calls) == 1, "on-error-mismatch", f"cycle {cycle}: {len(calls)} on_error calls before the end")
-            extra = [r for r in new if r not in want]
-            self.expect(not extra and len(set(new)) == len(new), "report-mismatch",
+            self.expect(bool(calls), "on-error-mismatch", f"cycle {cycle}: no on_error call before the end")
+            self.expect(match_records(new, want) is not None, "report-mismatch",
                         f"cycle {cycle}: reported {new!r}, trigger∧context gives {want!r}")
             self.expect(bool(new) and new[-1][2] >= logging.ERROR, "report-mismatch",
                         f"cycle {cycle}: the failure was not preceded by its ERROR-level record: {new!r}")
@@ -308,9 +339,10 @@ class Scen(CompScenario):
         self.expect(self.failed_at is None, "spurious-failure",
                     f"cycle {cycle}: the run failed (failed_at={self.failed_at}) without an ERROR-level record; "
                     f"expected records {want!r}")
-        self.expect(sorted(new) == sorted(want), "report-mismatch",
-                    f"cycle {cycle}: reported {sorted(new)!r}, trigger∧context gives {sorted(want)!r}")
-        self.expect(len(calls) == len(want_err), "on-error-mismatch",
+        self.expect(len(new) == len(want) and match_records(new, want) is not None, "report-mismatch",
+                    f"cycle {cycle}: reported {sorted(new)!r}, trigger∧context gives {sorted(want)!r} "
+                    f"(messages are compared without the location prefix)")
+        self.expect(bool(calls) == bool(want_err), "on-error-mismatch",
                     f"cycle {cycle}: {len(calls)} on_error call(s) for {len(want_err)} ERROR-level record(s); records {new!r}",
                     level="/".join(sorted({logging.getLevelName(r[2]) for r in new})))
         if want_err:
@@ -357,7 +389,7 @@ class Scen(CompScenario):
                 msg = fmt.format(**{f"f{fi}": v for fi, v in enumerate(vals)})
             else:
                 msg = fmt.format(*vals)
-            self.pending.append((cyc, LOGGERS[s["logger"]], LEVELS[s["level"]], f"[c34_site_{k}.py:{200 + k}] {msg}"))
+            self.pending.append((cyc, LOGGERS[s["logger"]], LEVELS[s["level"]], msg))
             self.hit(f"level_{s['level']}")
             if LEVELS[s["level"]] >= logging.ERROR:
                 self.any_error_expected = True
@@ -445,7 +477,13 @@ class Prop(PropBase):
     stubs = ["cycle driver (stimulus)", "host design that carries the log sites", "capturing logging.Handler",
              "on_error callback (counting, or raising like TestCaseWithSimulator's)"]
     search_space = "log-site sets, format specifications, module contexts and trigger / field / request histories"
-    assumptions = ["{:s} fields carry ASCII text (the library decodes the packed bytes as UTF-8; other byte strings are "
+    assumptions = ["log records are matched to the log statements by registration order; the raw record (cycle stamp, logger name, "
+                   "level, message) is taken as the library's simulation logging process hands it to Python logging",
+                   "'within its module context' filtering: a record is expected iff its level is at least the level the process was "
+                   "created for and its logger name is selected by the namespace expression; only namespace expressions on which "
+                   "re.search, re.match and re.fullmatch agree for every logger of the design are used",
+                   "the message is compared without whatever precedes it in the reported text (the '[file:line] ' prefix)",
+                   "{:s} fields carry ASCII text (the library decodes the packed bytes as UTF-8; other byte strings are "
                    "outside the statement)",
                    "the failure raised by on_error is observed where it leaves the library's logging coroutine; that "
                    "Amaranth's sim.run() re-raises an exception of a process is trusted",
@@ -486,7 +524,8 @@ class Prop(PropBase):
             sites[rng.randrange(nsites)]["level"] = rng.choice(["error", "assert"])
         cycles = rng.randint(30, 140 if big else 90)
         min_level = rng.choice([logging.DEBUG] * 7 + [logging.INFO, logging.WARNING, logging.ERROR])
-        ns = rng.choice([".*"] * 7 + ["core", r"^c34v\.mem$", r"alu|mem"])
+        # only filters that select the same loggers under re.search, re.match and re.fullmatch (ns_agrees)
+        ns = rng.choice([".*"] * 7 + [r"c34v\.core(\.alu)?", r"^c34v\.mem$", r"c34v\.(core\.alu|mem)"])
         if fatal and rng.random() < 0.7:
             min_level, ns = logging.DEBUG, ".*"
         return {"prog": prog, "where": where, "sites": sites, "cycles": cycles, "fatal": fatal,
